@@ -238,8 +238,6 @@ def shard_cancel_sweep(prop: str, tier: str, seed: int, name: str) -> dict[str, 
     sds = [{"style": "fifo", "d": [], "R": 2}]
     for hold, hf in (("CancelStage", 3), ("CancelStage", 12), ("RunTask", 4), ("CompleteStage", 4), ("CompleteTask", 4), ("StartTask", 4)):
         sds.append({"style": "hold", "d": [], "R": 2, "hold": hold, "hold_for": hf})
-    if tier == "thorough":
-        sds += [{"style": "uniform", "d": [2 * a, 2 * b], "R": 2} for a in range(3) for b in range(3) if a or b]
     for at in range(steps + 2):
         for sd in sds:
             run = Run(spec, make_schedule(sd), events=True)
